@@ -369,6 +369,8 @@ type viol struct {
 	Detail map[string]any
 	count  int
 	worst  float64
+	count0 int     // occurrences on the stall-free trajectory
+	worst0 float64 // worst excess there
 }
 
 type state struct {
@@ -408,6 +410,12 @@ func (r *result) add(c *pcase, oracle string, excess float64, it *item, t int64,
 		r.order = append(r.order, oracle)
 	}
 	v.count++
+	if len(it.path) == 0 { // on the stall-free trajectory (the attacker follows the pacer exactly, nothing injected)
+		v.count0++
+		if excess > v.worst0 {
+			v.worst0 = excess
+		}
+	}
 	if excess > v.worst {
 		v.worst = excess
 		v.Detail["worst_at"] = map[string]any{"stalls": append([]stallRec(nil), it.path...), "elapsed_ns": t, "hits": n, "wait_ns": w, "schedule_S": c.sOr0(t), "excess_hits": excess}
@@ -747,6 +755,17 @@ func pointwise(c *pcase) (evals int, vs []pviol) {
 // the number of hits per period (mean*period) - without the phase and without
 // the absolute time scale: pacers of the same shape are the same curve up to
 // nanosecond rounding, and they fail together.
+// excessClass buckets the worst excess (in hits) by powers of two, saturating above 512
+// (a run-away reaches the horizon, whose length differs between the tiers).
+func excessClass(x float64) string {
+	for b := 2.0; b <= 512; b *= 2 {
+		if x <= b {
+			return fmt.Sprintf("x<=%g", b)
+		}
+	}
+	return "x>512"
+}
+
 func keyOf(c *pcase, oracle string) string {
 	if c.shape != "" {
 		return c.shape + ":" + oracle
@@ -847,8 +866,16 @@ func TestC01(t *testing.T) {
 			v := o.res.viols[or]
 			v.Detail["occurrences"] = v.count
 			v.Detail["worst_excess_hits"] = v.worst
-			report(keyOf(c, or), v.Detail)
+			// the key also carries the magnitude class of the worst excess, so that a listed known finding
+			// (e.g. 1.45 hits ahead near the zero crossing) does not hide a worse failure of the same pacer
+			report(keyOf(c, or)+":"+excessClass(v.worst), v.Detail)
 			allKeys[len(allKeys)-1] += fmt.Sprintf(" [%s worst_excess=%.3f occurrences=%d]", c.desc, v.worst, v.count)
+			if v.count0 > 0 {
+				// the same oracle failing without any injected stall is a finding of its own
+				d0 := map[string]any{"pacer": c.desc, "oracle": or, "stalls": "none", "occurrences": v.count0, "worst_excess_hits": v.worst0}
+				report(keyOf(c, or)+":nostall:"+excessClass(v.worst0), d0)
+				allKeys[len(allKeys)-1] += fmt.Sprintf(" [%s stall-free worst_excess=%.3f occurrences=%d]", c.desc, v.worst0, v.count0)
+			}
 		}
 		if o.res.sample != nil && i%97 == 5 && nsamp < 6 {
 			R.Sample(o.res.sample)
